@@ -128,7 +128,7 @@ def floors(tier):
     s = 1 if q else 10
     return {
         "monitors": {"obstime_formats.conserved": 25000 * s, "csv.roundtrip": 6000 * s, "gpx.roundtrip": 1200 * s, "gpx.per_track_files": 200 * s,
-                     "net.roundtrip": 1000 * s, "wkt.roundtrip": 900 * s, "coord.within_written_precision": 90000 * s,
+                     "net.roundtrip": 1000 * s, "net.second_read_after_the_first_was_modified": 300 * s, "wkt.roundtrip": 900 * s, "coord.within_written_precision": 90000 * s,
                      "timestamp.same_second": 25000 * s},
         "classes": {"csv": 5000, "gpx": 1200, "net": 1000, "wkt": 900, "sequence": 1000,
                     "srid_ENU": 1800, "srid_GEO": 1800, "srid_ECEF": 1800,
@@ -440,6 +440,11 @@ def gen_wkt_step(rng, srid=None):
     srid = srid or rng.choice(["ENU", "ENU", "GEO"])
     n = rng.choice([1, 2, 2, 3, 4, 5, 8])
     pts = [[wkt_value(rng, srid, 0), wkt_value(rng, srid, 1), 0.0] for _ in range(n)]
+    r = rng.random()
+    if n >= 2 and r < 0.2:
+        pts[-1] = list(pts[0])            # ties: an exactly closed lap (two observations at the same place)
+    elif n >= 3 and r < 0.3:
+        pts[rng.randrange(1, n)] = list(pts[rng.randrange(0, n - 1)])   # a place visited twice / a repeated fix
     return {"kind": "wkt", "srid": srid, "pts": pts, "t_ms": gen_times(rng, n)}
 
 
@@ -884,6 +889,34 @@ def step_net(st, ctx, work, si):
         t = M.call(_net_truth, r)
         if M.is_raised(t):
             return [_raised_mm(si, "reading back the network through the API", t)]
+        mm = _net_diffs(si, t, e_exp, n_exp)
+        if not mm and (len(e_exp) + len(n_exp) + si) % 2 == 0:
+            # aliasing: the network read back belongs to the caller, who moves it in place (every vertex, every node);
+            # reading the same, unchanged file again must give what the file says
+            for e in r.EDGES.values():
+                for o in e.geom.getObsList():
+                    M.scribble(o.position)
+            for nd in r.NODES.values():
+                M.scribble(nd.coord)
+            r2 = M.call(NetworkReader.readFromFile, path, nf, False)
+            ctx.monitor("net.second_read_after_the_first_was_modified")
+            if M.is_raised(r2):
+                return [_raised_mm(si, "NetworkReader.readFromFile (second read of the same file)", r2)]
+            t2 = M.call(_net_truth, r2)
+            if M.is_raised(t2):
+                return [_raised_mm(si, "reading back the network through the API (second read)", t2)]
+            mm = _net_diffs(si, t2, e_exp, n_exp)
+            for m in mm:
+                m["tag"] = m["tag"] + "_on_second_read_after_the_first_network_was_moved_in_place"
+        if mm:
+            mm[0]["file_head"] = _file_head(path)
+        return mm
+    finally:
+        _rm(path)
+
+
+def _net_diffs(si, t, e_exp, n_exp):
+    if True:
         e_got, n_got = t
         mm = []
         if sorted(e_got) != sorted(e_exp):
@@ -905,11 +938,7 @@ def step_net(st, ctx, work, si):
             if len(ee[3]) != len(gg[3]) or not all(_close_rel(a[0], b[0]) and _close_rel(a[1], b[1])
                                                    for a, b in zip(ee[3], gg[3])):
                 mm.append({"step": si, "tag": "geometry", "edge": eid, "expected": ee[3], "got": gg[3]})
-        if mm:
-            mm[0]["file_head"] = _file_head(path)
         return mm
-    finally:
-        _rm(path)
 
 
 def step_wkt(st, ctx, work, si):
